@@ -4,7 +4,8 @@ from __future__ import annotations
 
 import numpy as np
 
-INT_DTYPES = ['int8', 'int16', 'int32', 'int64', 'uint8', 'uint16', 'uint32']
+INT_DTYPES = ['int8', 'int16', 'int32', 'int64', 'uint8', 'uint16', 'uint32',
+              '>i4', '>i2']       # big-endian: arrays read from FITS
 
 
 def gaussians(shape, srcs):
